@@ -54,7 +54,10 @@ func runC09(c *Ctx) {
 	if pkv := c.Load("kvstore"); pkv != nil {
 		checkExtendedRealm(r, pkv, "kvstore/mapdb", "mapDB")
 	}
-	checkErrorConstructorsNonNil(r, p)
+	// the map keeps its size in a TypedValue and its raw keys in a TypedStore: the typed views are
+	// transparent and error-faithful (every obligation of C06, which brings the map store's copy
+	// discipline and the error constructors' contract with it)
+	runC06(c)
 	// (1) locks
 	checkGuards(r, p, "lock/guarded-by", []GuardRow{
 		{Pkg: pkg, Type: "authenticatedMap", Mutex: "mutex", Fields: []string{"tree"},
